@@ -120,6 +120,13 @@ func verifParse(filename string, input []byte, o *parsersim.Opts, ctx *kernel.Ct
 			Parse("nested", []byte("ab\n"), GlobalStore("sim", kernel.NewCtx(&np)), MaxExpressions(120))
 		})
 	}
+	ctx.NestedErr = func() (nerr error) {
+		simrt.Nested(200000, func() {
+			np := kernel.Plan{Seed: ctx.Plan.Seed ^ 0x2545f491, PredTruePct: 50, StateKeys: 2, MaxEvents: 60}
+			_, nerr = Parse("inc.txt", []byte("\x00?\n\x00"), GlobalStore("sim", kernel.NewCtx(&np)), MaxExpressions(120))
+		})
+		return
+	}
 %[6]s
 	if o.Recover != nil {
 		opts = append(opts, Recover(*o.Recover))
@@ -141,6 +148,9 @@ func verifParse(filename string, input []byte, o *parsersim.Opts, ctx *kernel.Ct
 		} else {
 			opts = append(opts, MaxExpressions(o.MaxExpr))
 		}
+	}
+	if o.Shuffle != 0 {
+		parsersim.ShuffleOpts(len(opts), o.Shuffle, func(i, j int) { opts[i], opts[j] = opts[j], opts[i] })
 	}
 	defer func() {
 		if e := recover(); e != nil {
